@@ -123,6 +123,7 @@ pub fn sizes_for(vlevels: u8, tier: Tier) -> Vec<u32> {
 
 pub fn check_case(case: &Case, macros: &Mutex<MacroAlphabets>, tier: Tier) -> Option<LawOutcome> {
     let t0 = std::time::Instant::now();
+    let case_cap = std::time::Duration::from_secs(if tier == Tier::Quick { 25 } else { 240 });
     if !case.law_note.is_empty() {
         // stated plainly: the law of this case is not decided by this technique (no restart structure, one
         // value-producing draw per unit of output); it is not explored
@@ -137,6 +138,7 @@ pub fn check_case(case: &Case, macros: &Mutex<MacroAlphabets>, tier: Tier) -> Op
     pc.macro_cells = vec![8, 8, 4, 4, 2];
     pc.tail_bits = 0;
     pc.exec_budget = 3_000_000;
+    pc.deadline = Some(t0 + case_cap / 4);
     let vlevels = {
         let mut ex = Explorer::new(&*s, &grid, pc, Some(macros));
         let r = ex.run(&[]);
@@ -159,6 +161,7 @@ pub fn check_case(case: &Case, macros: &Mutex<MacroAlphabets>, tier: Tier) -> Op
     cfg.macro_cells = sz;
     cfg.tail_points = if tier == Tier::Quick { 2 } else { 4 };
     cfg.exec_budget = if tier == Tier::Quick { 120_000_000 } else { 1_500_000_000 };
+    cfg.deadline = Some(t0 + case_cap);
     let mut ex = Explorer::new(&*s, &grid, cfg, Some(macros));
     let res = ex.run(&[]);
     let k = grid.k();
